@@ -1,4 +1,6 @@
 """C03 Awaiting an event returns iff its whole handler/descendant tree is done."""
+from hypothesis import strategies as st
+
 from bvt import oracles
 from bvt.gen import Profile, scenario
 from bvt.props._scen import common_classes, judge
@@ -10,10 +12,11 @@ RULE = (
     'forwarding, explicit parent ids, self-recursive wildcard handlers deep enough to trip the recursion guard) with 1-3 actors awaiting roots and descendants before, during and long after '
     'processing. Oracle at the instant each external await returns: same object, no exception, all results terminal, '
     'every harness-known accepted descendant complete; liveness: no actor is still blocked in an await when the run '
-    'has been silent for longer than any generated wait. Non-trivial = the awaited event had >= 1 accepted descendant; '
+    'has been silent for longer than any generated wait. One scenario in fifteen also stops a bus (possibly with a handler in flight): '
+    'there only the converse is judged - a waiter whose whole tree has terminal results (cancelled handlers included) must have been released. Non-trivial = the awaited event had >= 1 accepted descendant; '
     'distinct by canonical JSON.'
 )
-ASSUMPTIONS = ['virtual time; liveness judged as bounded safety (progress-based stall detector)', 'no firing timeouts, no stop(), history unlimited or default 50 with < 50 events']
+ASSUMPTIONS = ['virtual time; liveness judged as bounded safety (progress-based stall detector)', 'no firing timeouts; stop() only in the dedicated sub-family (trees it leaves unprocessed are not judged); history unlimited or default 50 with < 50 events']
 
 P = Profile(raises=0.2, actor_ops=['disp', 'disp', 'sleep', 'await', 'await', 'awaitdesc', 'yield'], max_actor_ops=6, maxdepth=[2, 3, 3], wild=0.15, fwd=0.35, xp=0.05, modes=['await', 'later', 'ff', 'ff'], deep_wild=True)
 
@@ -22,10 +25,33 @@ def budget(tier):
     return {'examples': 6000 if tier == 'quick' else 120000, 'wall_s': 300 if tier == 'quick' else 3000, 'shrink_s': 60}
 
 
+@st.composite
+def _with_stop(draw):
+    """One scenario in five: some actor stops a bus (possibly while a handler is suspended in it). The statement's converse still
+    binds there: once every handler result of the awaited tree is terminal (a handler cancelled by stop() has an error result)
+    the waiter must be released. Trees that stop() left unprocessed are not judged."""
+    sc = draw(scenario(P))
+    if draw(st.integers(0, 4)) != 0:
+        return sc
+    sc = dict(sc)
+    actors = [list(a) for a in sc['actors']]
+    ai = draw(st.integers(0, len(actors) - 1))
+    pos = draw(st.integers(min(1, len(actors[ai])), len(actors[ai])))
+    pre = draw(st.sampled_from([None, 0.01, 0.05, 0.1, 0.11, 0.25]))
+    # prefer a bus some handler is registered on / this actor dispatched to, so that the stop often lands on a handler in flight
+    used = [op[1] for op in actors[ai][:pos] if op[0] in ('disp', 'burst')] + [h['bus'] for h in sc['handlers']]
+    bus = draw(st.sampled_from(used)) if used and draw(st.integers(0, 3)) else draw(st.integers(0, len(sc['buses']) - 1))
+    ins = ([['sleep', pre]] if pre is not None else []) + [['stop', bus, draw(st.sampled_from([None, None, 0, 0.05, 0.25])), False]]
+    actors[ai] = actors[ai][:pos] + ins + actors[ai][pos:]
+    sc['actors'] = actors
+    sc['stops'] = True
+    return sc
+
+
 def strategy(tier):
     from bvt.props._scen import mixed
 
-    return mixed(scenario(P), tier, ID)
+    return st.integers(0, 2).flatmap(lambda k: _with_stop() if k == 0 else mixed(scenario(P), tier, ID))
 
 
 def _awaited(F):
@@ -50,6 +76,9 @@ def classes(F):
         cl.append('fire-and-forget-child')
     if any(r['k'] == 'disp' and r.get('xp') for r in F.tr):
         cl.append('explicit-parent')
+    for r in F.tr:
+        if r['k'] == 'a-stop-begin':
+            cl.append('stop:' + ('handler-in-flight' if r['busy'] else ('running-idle' if r['started'] else 'never-started')))
     return cl
 
 
